@@ -4,9 +4,9 @@ block and auxiliary values the kernel passed, in every link mode; environment lo
 the first entry whose name equals the key exactly.
 
 Models: Model/Start.lean (resolve, from_auxv, relocate_symbols, `ArgsOs::next` / `Args::next` — AS WRITTEN) and
-Model/Env.lean (var / var_unix after the `fix:` commit; `Env.Legacy` = before; the argument iterators as
-stateful objects: `core`'s default `nth` / `skip` / `step_by` / `fold` / `count` / `last` / `size_hint` bodies
-over that `next`, and `len` as overridden).  Helper lemmas: Proofs/StartLemmas.lean, Proofs/EnvLemmas.lean,
+Model/Env.lean (var / var_unix after the `fix:` commit 10a4869; the argument iterators as stateful objects:
+`core`'s default `nth` / `skip` / `step_by` / `fold` / `count` / `last` bodies over that `next`, and `len` /
+`size_hint` as overridden after the `fix:` commit d3e06ee; `Env.Legacy` = the bodies before either fix).  Helper lemmas: Proofs/StartLemmas.lean, Proofs/EnvLemmas.lean,
 Proofs/ArgsIterLemmas.lean.  Observed only (no theorem): the `_start` assembly, the vDSO
 symbol lookup and the vDSO clock's agreement with the system call (checks/c07.py).
 
@@ -215,64 +215,91 @@ theorem args_nth_relative {m : Mem} {sp : Nat} {argv env : List Bytes} {aux : Li
   exact ⟨nthWith_eq H rfl k i hi, skipNextWith_eq H rfl k i hi,
     nthWith_eq H' (by simp) k i hi, skipNextWith_eq H' (by simp) k i hi⟩
 
-/-- EVERY script of calls (`next`, `nth(k)`, `skip(k).next()`, `step_by(k)` polled to the end, `len`, `size_hint`,
-`count`, `last`, `fold`; any order, any length, any `k`, `step_by(0)` excluded because `core` panics on it) on ONE
-fresh `args_os()` / `args()` iterator answers exactly what a cursor over the argument vector passed answers
-(`specRunW`), with `len()` = argc and `size_hint()` = (0, None) AS WRITTEN.  No fault, no panic; `argc + 1`
-polls suffice for every loop. -/
-theorem iter_ops_as_written {m : Mem} {sp : Nat} {argv env : List Bytes} {aux : List (Nat × Nat)} {aptrs eptrs : List Nat}
+/-- THE PROPERTY for the iterators.  EVERY script of calls (`next`, `nth(k)`, `skip(k).next()`, `step_by(k)` polled to
+the end, `len`, `size_hint`, `count`, `last`, `fold`; any order, any length, any `k`, `step_by(0)` excluded because
+`core` panics on it) on ONE fresh `args_os()` / `args()` iterator answers exactly what std's contract demands of an
+iterator over the argument vector passed — what a plain slice iterator over `argv` answers (`specRun`): each call is
+relative to the current position, no argument is yielded twice, none is skipped that was not asked to be, never more
+than argc items, and `len()` / `size_hint()` are at every point of the script the exact number of arguments not yet
+yielded (`ExactSizeIterator`'s contract).  No fault, no panic (in particular `num_args - ind` never overflows);
+`argc + 1` polls suffice for every loop. -/
+theorem iter_ops_exact {m : Mem} {sp : Nat} {argv env : List Bytes} {aux : List (Nat × Nat)} {aptrs eptrs : List Nat}
     (h : StackAt m sp argv env aux aptrs eptrs) (fuel k : Nat) (hf : ∀ s ∈ argv, s.length < fuel) (hk : argv.length < k)
     (ops : List ItOp) (hops : ∀ op ∈ ops, op.wf) :
     let e := envOf sp argv.length
-    runOps (ArgsOs.next m e fuel) k ops (argsOs e) = .ok (specRunW argv ops 0) ∧
-    runOps (Args.next m e fuel) k ops (argsOs e) = .ok (specRunW (argv.map asStr) ops 0) := by
+    runOps (ArgsOs.next m e fuel) k ops (argsOs e) = .ok (specRun argv ops 0) ∧
+    runOps (Args.next m e fuel) k ops (argsOs e) = .ok (specRun (argv.map asStr) ops 0) := by
   have H := next_spec_os h fuel hf
   have H' := next_spec_args H
   exact ⟨runOps_eq H rfl k hk ops 0 hops (Nat.zero_le _), runOps_eq H' (by simp) k hk ops 0 hops (Nat.zero_le _)⟩
 
-/-- THE PROPERTY for the iterators, `_partial` = the calls whose answers are arguments (everything but `len` /
-`size_hint`, see `len_not_remaining_witness`): every such script answers exactly what std's contract demands of
-an iterator over the argument vector passed — what a plain slice iterator over `argv` answers (`specRun`): each
-call is relative to the current position, no argument is yielded twice, none is skipped that was not asked to be,
-never more than argc items. -/
-theorem iter_ops_exact_partial {m : Mem} {sp : Nat} {argv env : List Bytes} {aux : List (Nat × Nat)} {aptrs eptrs : List Nat}
+/-- `len()` / `size_hint()` on an iterator that has already yielded `i` arguments, whatever calls brought it there:
+exactly `argc - i`, and `(argc - i, Some(argc - i))`; the iterator is left where it was -/
+theorem len_remaining_at {m : Mem} {sp : Nat} {argv env : List Bytes} {aux : List (Nat × Nat)} {aptrs eptrs : List Nat}
     (h : StackAt m sp argv env aux aptrs eptrs) (fuel k : Nat) (hf : ∀ s ∈ argv, s.length < fuel) (hk : argv.length < k)
-    (ops : List ItOp) (hops : ∀ op ∈ ops, op.yields) :
+    (i : Nat) (hi : i ≤ argv.length) :
     let e := envOf sp argv.length
-    runOps (ArgsOs.next m e fuel) k ops (argsOs e) = .ok (specRun argv ops 0) ∧
-    runOps (Args.next m e fuel) k ops (argsOs e) = .ok (specRun (argv.map asStr) ops 0) := by
-  have hw := iter_ops_as_written h fuel k hf hk ops (fun op ho => ItOp.yields_wf (hops op ho))
-  rw [specRunW_of_yields argv ops 0 hops, specRunW_of_yields (argv.map asStr) ops 0 hops] at hw
-  exact hw
+    let it : ArgsOs := ⟨i, argv.length⟩
+    itStep (ArgsOs.next m e fuel) k .len it = .ok (.num (argv.length - i), it) ∧
+    itStep (ArgsOs.next m e fuel) k .sizeHint it = .ok (.hint (argv.length - i) (some (argv.length - i)), it) ∧
+    itStep (Args.next m e fuel) k .len it = .ok (.num (argv.length - i), it) ∧
+    itStep (Args.next m e fuel) k .sizeHint it = .ok (.hint (argv.length - i) (some (argv.length - i)), it) := by
+  have H := next_spec_os h fuel hf
+  have H' := next_spec_args H
+  have hl : (argv.map asStr).length = argv.length := by simp
+  have a1 := itStep_eq H rfl k hk .len trivial i hi
+  have a2 := itStep_eq H rfl k hk .sizeHint trivial i hi
+  have a3 := itStep_eq H' hl k hk .len trivial i hi
+  have a4 := itStep_eq H' hl k hk .sizeHint trivial i hi
+  simp only [specStep, hl] at a1 a2 a3 a4
+  exact ⟨a1, a2, a3, a4⟩
 
-/-- on a FRESH iterator `len()` is the number of arguments that remain (= argc) -/
-theorem len_fresh_exact (argv : List Bytes) : (specStepW argv .len 0).1 = (specStep argv .len 0).1 := rfl
-
-/-- the iterators are fused and bounded: once the position is argc every further call answers `None` / nothing
-and stays there, whatever the script did before -/
+/-- the iterators are fused and bounded: once the position is argc every further call answers `None` / nothing /
+0 / (0, Some(0)) and stays there, whatever the script did before -/
 theorem iter_exhausted_stays {m : Mem} {sp : Nat} {argv env : List Bytes} {aux : List (Nat × Nat)} {aptrs eptrs : List Nat}
     (h : StackAt m sp argv env aux aptrs eptrs) (fuel k : Nat) (hf : ∀ s ∈ argv, s.length < fuel) (hk : argv.length < k)
-    (op : ItOp) (hop : op.yields) :
+    (op : ItOp) (hop : op.wf) :
     ∃ out, itStep (ArgsOs.next m (envOf sp argv.length) fuel) k op ⟨argv.length, argv.length⟩ = .ok (out, ⟨argv.length, argv.length⟩) ∧
-      (out = .item none ∨ out = .items [] ∨ out = .num 0) := by
+      (out = .item none ∨ out = .items [] ∨ out = .num 0 ∨ out = .hint 0 (some 0)) := by
   have H := next_spec_os h fuel hf
-  have := itStep_eq H rfl k hk op (ItOp.yields_wf hop) argv.length (Nat.le_refl _)
-  rw [specStepW_of_yields argv hop] at this
+  have := itStep_eq H rfl k hk op hop argv.length (Nat.le_refl _)
   have h2 : (specStep argv op argv.length).2 = argv.length := by
     cases op <;> simp only [specStep] <;> omega
   refine ⟨(specStep argv op argv.length).1, ?_, ?_⟩
   · rw [this, h2]
-  · cases op <;> simp_all [specStep, ItOp.yields, everyKth_nil]
+  · cases op <;> simp_all [specStep, ItOp.wf, everyKth_nil]
 
-/-- FINDING (code as written, not repaired here): `ExactSizeIterator::len` is `num_args` whatever has been yielded.
-Three arguments, `next()` then `len()`: the code answers 3, two arguments remain. `size_hint()` is (0, None): a
-valid bound, not the exact one `ExactSizeIterator` promises. -/
-theorem len_not_remaining_witness :
+/-- the repaired code on a concrete image: three arguments, `next()` then `len()` / `size_hint()` answer 2 and
+(2, Some(2)), the number of arguments that remain; after two more `next()` they answer 0 and (0, Some(0)), also
+after a further `next()` past the end; `args()` answers the same -/
+theorem len_remaining_witness :
     let argv : List Bytes := [[97], [], [255, 254]]
     let m := memOf 4096 (buildStack 4096 argv [] [])
     let e := envOf 4096 3
-    runOps (ArgsOs.next m e 50) 5 [.next, .len, .sizeHint] (argsOs e) = .ok [.item (some [97]), .num 3, .hint 0 none] ∧
-    specRun argv [.next, .len, .sizeHint] 0 = [.item (some [97]), .num 2, .hint 2 (some 2)] := by decide
+    runOps (ArgsOs.next m e 50) 5 [.next, .len, .sizeHint] (argsOs e) = .ok [.item (some [97]), .num 2, .hint 2 (some 2)] ∧
+    specRun argv [.next, .len, .sizeHint] 0 = [.item (some [97]), .num 2, .hint 2 (some 2)] ∧
+    runOps (ArgsOs.next m e 50) 5 [.len, .nth 1, .len, .next, .len, .next, .len, .sizeHint] (argsOs e) =
+      .ok [.num 3, .item (some []), .num 1, .item (some [255, 254]), .num 0, .item none, .num 0, .hint 0 (some 0)] ∧
+    runOps (Args.next m e 50) 5 [.next, .len, .sizeHint] (argsOs e) = .ok [.item (some (.ok [97])), .num 2, .hint 2 (some 2)] := by
+  decide
+
+/-- HISTORY (finding repaired by the `fix:` commit d3e06ee): before it `ExactSizeIterator::len` was `num_args`
+whatever had been yielded and `size_hint()` the default (0, None) — `Legacy.runOps`.  On the same image, `next()`
+then `len()`: the old code answered 3 with two arguments left, and (0, None), a valid bound but not the exact one
+`ExactSizeIterator` promises; that is NOT what the arguments passed demand (`specRun`), the repaired code's answer is -/
+theorem legacy_len_not_remaining_witness :
+    let argv : List Bytes := [[97], [], [255, 254]]
+    let m := memOf 4096 (buildStack 4096 argv [] [])
+    let e := envOf 4096 3
+    Legacy.runOps (ArgsOs.next m e 50) 5 [.next, .len, .sizeHint] (argsOs e) = .ok [.item (some [97]), .num 3, .hint 0 none] ∧
+    Legacy.runOps (ArgsOs.next m e 50) 5 [.next, .len, .sizeHint] (argsOs e) ≠ .ok (specRun argv [.next, .len, .sizeHint] 0) ∧
+    runOps (ArgsOs.next m e 50) 5 [.next, .len, .sizeHint] (argsOs e) = .ok (specRun argv [.next, .len, .sizeHint] 0) := by
+  decide
+
+/-- the old and the repaired code differ in NOTHING but the answers of `len` / `size_hint` -/
+theorem legacy_itStep_same {α : Type} (nx : Nx α) (fuel : Nat) (op : ItOp) (it : ArgsOs)
+    (h : op ≠ .len ∧ op ≠ .sizeHint) : Legacy.itStep nx fuel op it = itStep nx fuel op it := by
+  cases op <;> simp_all [Legacy.itStep]
 
 /-- the model computes, on a concrete image, what the theorems say: after `next()`, `nth(1)` is the argument two
 further on (not `argv[1]`), `skip(0).next()` the one after it, `step_by(2)` from position 1 yields `argv[1], argv[3]`,
